@@ -343,7 +343,46 @@ def monitor_a(case, impl):
     return None
 
 
+# ---------------------------------------------------------------- c15V: a less that reads the values slice too
+def v_params(case):
+    t = case.split()
+    m = int(t[2])
+    comp = [int(x) for x in t[3:]]
+    return m, comp
+
+
+def compare_v(case, model, impl):
+    pm, pi = parse_sort(model), parse_sort(impl)
+    if pm is None:
+        return "model produced no result (%s)" % model[:80]
+    if pi is None:
+        return "implementation produced no result (%s)" % impl[:80]
+    if pm[0] != pi[0] or pm[1] != pi[1]:
+        return "final (key, value) pairs differ"
+    if pm[2] != pi[2]:
+        return "number of less calls differs (model %d, impl %d)" % (pm[2], pi[2])
+    return None
+
+
+def monitor_v(case, impl):
+    m, comp = v_params(case)
+    pi = parse_sort(impl)
+    if pi is None:
+        return ("panic", "SliceBy panicked / gave no result: " + impl[:200])
+    k2, v2, cnt, _ = pi
+    if any(k % m != v for k, v in zip(k2, v2)) or sorted(k2) != sorted(comp):
+        return ("pairs", "(key,value) pairs after the call are not a permutation of the original pairs (less compares keys, ties by value)")
+    for i in range(1, len(k2)):
+        if k2[i] < k2[i - 1]:
+            return ("sorted", "pair #%d (key %d, value %d) is less than pair #%d (key %d, value %d) under the supplied less (key, then value)" % (
+                i, k2[i] // m, k2[i] % m, i - 1, k2[i - 1] // m, k2[i - 1] % m))
+    if cnt > cmp_bound(len(comp)):
+        return ("comparisons", "%d less calls for n=%d: not O(n log n)" % (cnt, len(comp)))
+    return None
+
+
 SEQ_TAGS = {
+    "c15V": (compare_v, monitor_v, lambda case, model: len(case.split()) > 5),
     "c15Q": (compare_q, monitor_q, nontrivial_q),
     "c15G": (compare_g, monitor_g, lambda case, model: len(g_subs(case)) >= 2),
     "c15A": (compare_a, monitor_a, lambda case, model: parse_a(model) is not None and parse_a(model)[2] >= 2),
@@ -528,6 +567,16 @@ def gen(rng, tier):
         ks = [rng.range(-hi, hi) for _ in range(n)]
         sm.append(sort_case(rng.choice([0, 1, 2, 2, 3, 3, 4, 5]), rng.below(3), ks, list(range(n))))
     streams.append(("modes-types-small", sm))
+    # 2b. a less that reads the VALUES slice as well (ties between equal keys broken by the value)
+    lv = []
+    for _ in range(500 if quick else 10000):
+        n = rng.choice([0, 1, 2, 3, 5, 8, 11, 12, 13, 14, 25, 40, rng.range(0, 120)])
+        hi = rng.choice([1, 2, 4, 9])
+        vs = list(range(n))
+        rng.shuffle(vs)
+        m = max(n, 1)
+        lv.append("c15V %d %d %s" % (rng.below(2), m, " ".join(str(rng.range(0, hi) * m + v) for v in vs)))
+    streams.append(("less-reads-values", lv))
     # 3. keys and values of different lengths
     df = []
     cnt = 600 if quick else 10000
